@@ -18,7 +18,7 @@ from pbsym.core import SBool, SReal
 from pbsym.modes import EPOCH, Raised, term_of_number, time_term
 from pbsym.runner import Unit
 from pbsym.stubs import NPProxy, UProxy
-from pbsym.tarr import SymTime, oq
+from pbsym.tarr import SymTime, oq, has_shadow as _has_shadow
 
 from .C07 import parts, phase_patches
 from .common import RV, neq, poly_compose_affine, poly_of, poly_term, rterm, zabs
@@ -27,6 +27,8 @@ META = {
     "stubs": ["the PhasePredictor table (an astropy QTable holding real Time columns) is replaced by a stand-in `self` whose columns are vectors "
               "of exact-real SymTime / concrete Quantities taken from a predictor parsed by the REAL from_polyco; the real methods "
               "intervals, _get_index_and_dt, __call__, f0, phasepol run unbound on it",
+              "array times: a vector of SymTime (elementwise comparisons give object arrays of symbolic booleans; np.searchsorted runs on "
+              "object arrays and forks); np.zeros(shape, float64) inside predictor.py returns an object buffer so that the masked assignments keep shadow reals",
               "Phase with object fields (as C07); numpy Polynomial evaluates on shadow reals through its own Horner code",
               "parsing units: the file object is a stream of token lists (line.split() returns the tokens; numeric tokens carry shadow "
               "values, RPHASE is a symbolic decimal string so that partition('.') / '0.' + frac / np.int64('0' + int) run as written); "
@@ -36,12 +38,14 @@ META = {
                "parsing": "the real from_polyco on a token stream: layouts (entries x NCOEFF x span) 1x2x60, 1x4x60 quick; + 1x3x30, "
                           "2x2x60, 2x3x60 thorough (NCOEFF >= 5 with symbolic coefficients is not decided reliably); TMID, RPHASE (integer <= 1e12 and six decimals), F0, every coefficient "
                           "symbolic; then __call__ / f0 at a symbolic time against the tempo formula on the symbolic numbers",
+               "array_times": "__call__ / f0 on a 1-D array of 2 or 3 independent symbolic times (any order, same or different entries, inside or "
+                              "outside the spans); texts gap, odd (quick: n=2 all, n=3 odd-call and gap-f0), + timing n=2 and the other n=3 (thorough)",
                "evaluation": "three concrete polyco texts (the repository's timing.dat; a two-entry text with a gap; a generated text with "
                              "ncoeff not a multiple of 3, D exponents, signed coefficients), every entry, time symbolic over and beyond the spans"},
     "assumptions": ["exact real time and Horner arithmetic; coefficients are the doubles the real parser produced, compared with the exact "
                     "decimals of the text"],
     "outside": ["polyco texts outside the layouts listed (more than two entries with symbolic numbers, blank lines, NCOEFF = 1)", "time_at (SciPy root finder)",
-                "float round-off of Horner evaluation and of Time differences", "array-valued times"],
+                "float round-off of Horner evaluation and of Time differences", "arrays of more than 3 times or more than one dimension"],
 }
 
 TEXT_GAP = """B1937+21    7-May-18   93600.00   58245.40000000000   71.020167
@@ -99,11 +103,39 @@ def text_entries(txt):
 class TimeVec:
     """vector of SymTime (stand-in for a Time column)"""
 
+    isscalar = False
+    ndim = 1
+
     def __init__(self, items):
         self.items = list(items)
 
     def __len__(self):
         return len(self.items)
+
+    @property
+    def shape(self):
+        return (len(self.items),)
+
+    def _cmpv(self, o, op):
+        # elementwise comparison with a scalar SymTime (as `a <= times` / `times <= b` on a Time array): object array of SBool
+        if not isinstance(o, SymTime):
+            return NotImplemented
+        r = np.empty(len(self.items), dtype=object)
+        for k, t in enumerate(self.items):
+            r[k] = op(t.sec, o.sec)
+        return r
+
+    def __le__(self, o):
+        return self._cmpv(o, operator.le)
+
+    def __ge__(self, o):
+        return self._cmpv(o, operator.ge)
+
+    def __lt__(self, o):
+        return self._cmpv(o, operator.lt)
+
+    def __gt__(self, o):
+        return self._cmpv(o, operator.gt)
 
     def __iter__(self):
         return iter(self.items)
@@ -123,6 +155,18 @@ class TimeVec:
         return TimeVec([SymTime(t.sec + d) for t, d in zip(self.items, self._q(q))])
 
     def __sub__(self, q):
+        if isinstance(q, TimeVec):
+            if len(q) != len(self):
+                raise ValueError("shape mismatch")
+            r = np.empty(len(self.items), dtype=object)
+            for k, (x, y) in enumerate(zip(self.items, q.items)):
+                r[k] = x.sec - y.sec
+            return u.Quantity(r, u.s, dtype=object)
+        if isinstance(q, SymTime):
+            r = np.empty(len(self.items), dtype=object)
+            for k, x in enumerate(self.items):
+                r[k] = x.sec - q.sec
+            return u.Quantity(r, u.s, dtype=object)
         return TimeVec([SymTime(t.sec - d) for t, d in zip(self.items, self._q(q))])
 
     @property
@@ -154,7 +198,8 @@ class StandIn:
 
     def _get_index_and_dt(self, t):
         r = PR.PhasePredictor._get_index_and_dt(self, t)
-        self.chosen = int(r[0])            # which entry the real code selected on this path (for the oracle)
+        # which entry the real code selected on this path (for the oracle); one per element for an array of times
+        self.chosen = int(r[0]) if np.ndim(r[0]) == 0 else [int(x) for x in np.asarray(r[0]).ravel()]
         return r
 
 
@@ -417,6 +462,149 @@ class Evaluate(Unit):
         return f"polyco:{self.what}:{label}"
 
 
+class ObjBuf(np.ndarray):
+    """object-dtype result buffer; `buf * unit` keeps the shadow elements (astropy would cast an object array to float)"""
+
+    def __mul__(self, o):
+        if isinstance(o, u.UnitBase):
+            return u.Quantity(np.asarray(self).view(np.ndarray), o, dtype=object)
+        return np.ndarray.__mul__(self, o)
+
+
+class VecNP(NPProxy):
+    """np proxy for array-valued times: result buffers that the real code creates with np.zeros(..., float64) and fills by masked
+    assignment hold shadow reals (object elements; an element never filled stays 0)"""
+
+    def zeros(self, shape, dtype=float, **k):
+        if K.Ctx.cur is not None and np.dtype(dtype).kind == "f":
+            a = np.empty(shape, dtype=object).view(ObjBuf)
+            a[...] = 0.0
+            return a
+        return np.zeros(shape, dtype=dtype, **k)
+
+    def full(self, shape, fill_value, dtype=None, **k):
+        if K.Ctx.cur is not None and _has_shadow(fill_value):
+            a = np.empty(shape, dtype=object)
+            a[...] = fill_value
+            return a
+        return np.full(shape, fill_value, dtype=dtype, **k)
+
+
+class EvaluateVec(Evaluate):
+    """__call__ / f0 on an ARRAY of times (two symbolic times, in any order, in the same or different entries): every element
+    must be the tempo formula of an entry whose span contains that element's own time"""
+    witnesses = 0
+    max_paths = 4000
+
+    def __init__(self, which, what, n=2):
+        self.which, self.what, self.n = which, what, n
+        self.name = f"evalvec{n}-{which}-{what}"
+        self.bounds = {"polyco_text": which, "method": what, "times": f"array of {n} symbolic times, any order, each from 2 h before the "
+                       "first span to 2 h after the last"}
+
+    def patches(self):
+        from pbsym.stubs import sym_int
+        return phase_patches() + [(PR, "np", VecNP()), (PR, "u", UProxy()), (PR, "int", sym_int), (SymTime, "mjd", property(_mjd))]
+
+    def build(self, S):
+        a = Evaluate.build(self, S)
+        ts = [a["t"]]
+        lo = min(a["secs"]) - 7200 - 60 * max(e["span"] for e in a["ents"])
+        hi = max(a["secs"]) + 7200 + 60 * max(e["span"] for e in a["ents"])
+        for k in range(1, self.n):
+            t = S.real(f"t{k}")
+            S.assume(t > lo)
+            S.assume(t < hi)
+            ts.append(t)
+        a["ts"] = ts
+        return a
+
+    def call(self, a):
+        pp = a["pp"]
+        if a["sym"]:
+            me = StandIn({"tmid": TimeVec([SymTime(K.realval(s)) for s in a["secs"]]), "span": pp["span"], "rphase": np.asarray(pp["rphase"]),
+                          "poly": list(pp["poly"])})
+            tt = TimeVec([SymTime(t) for t in a["ts"]])
+            cls = PR.PhasePredictor
+        else:
+            me = pp
+            tt = EPOCH + np.array([float(t) for t in a["ts"]]) * u.s
+            cls = None
+        a["me"], a["tt"] = me, tt
+        if self.what == "call":
+            return (cls.__call__(me, tt) if cls else me(tt))
+        return [(cls.f0(me, tt, n) if cls else me.f0(tt, n)) for n in (0, 1)]
+
+    def spec(self, S, a, out):
+        n = self.n
+        if S.symbolic:
+            ts = [rterm(t) for t in a["ts"]]
+        else:
+            ts = [RV(sec_of(a["tt"][k])) for k in range(n)]
+        ents, secs = a["ents"], a["secs_txt"]
+        ms = RV(Fraction(1, 1000))
+        half = [RV(Fraction(30 * e["span"])) for e in ents]
+        tm_bad = len(a["secs"]) != len(secs) or any(abs(x - y) > Fraction(1, 10**9) for x, y in zip(sorted(a["secs"]), secs))
+        sl = RV(Fraction(2, 10**9)) if S.symbolic else RV(Fraction(1, 10**5))
+        inside = [z3.Or([z3.And(t >= RV(s) - h + sl, t <= RV(s) + h - sl) for s, h in zip(secs, half)]) for t in ts]
+        all_inside = z3.And(inside)
+        if isinstance(out, Raised):
+            return [("parsed-TMID-equals-text", z3.BoolVal(tm_bad)), ("raises-only-if-some-time-outside-spans", all_inside),
+                    ("raises-ValueError", z3.BoolVal(out.cls is not ValueError))]
+        ss = sorted(zip(secs, [Fraction(30 * e["span"]) for e in ents]))
+        ok_each = []
+        for t in ts:
+            in_gap = z3.BoolVal(False)
+            for (s1, h1), (s2, h2) in zip(ss, ss[1:]):
+                if (s2 - h2) - (s1 + h1) <= Fraction(1, 1000):
+                    in_gap = z3.Or(in_gap, z3.And(t >= RV(s1 + h1), t <= RV(s2 - h2)))
+            ok_each.append(z3.Or(in_gap, z3.Or([z3.And(t >= RV(s) - h - sl, t <= RV(s) + h + sl) for s, h in zip(secs, half)])))
+        checks = [("parsed-TMID-equals-text", z3.BoolVal(tm_bad)), ("must-raise-when-a-time-is-outside-spans", z3.Not(z3.And(ok_each)))]
+        tolp = RV(Fraction(1, 10**8))
+        chosen = getattr(a.get("me"), "chosen", None) if S.symbolic else None
+        if chosen is not None and (not isinstance(chosen, list) or len(chosen) != n):
+            return checks + [("one-entry-per-time", z3.BoolVal(True))]
+
+        def per_element(label, k, value, deriv, tol_fixed):
+            t = ts[k]
+            ak = dict(a)
+            if S.symbolic:
+                ak["t"] = a["ts"][k]
+            if chosen is not None:
+                j = chosen[k]
+                e, s, h = ents[j], secs[j], half[j]
+                d = value - self._formula(e, t - RV(s), deriv=deriv)
+                cs = []
+                if deriv == 0:
+                    cs.append((f"{label}[{k}]:entry-span-contains-its-time", z3.And(all_inside, z3.Or(t < RV(s) - h - ms, t > RV(s) + h + ms))))
+                return cs + self._bound_checks(S, ak, f"{label}[{k}]", d, j, tol_fixed, all_inside)
+            alts = []
+            for e, s, h in zip(ents, secs, half):
+                w = self._formula(e, t - RV(s), deriv=deriv)
+                tol = tol_fixed if deriv == 0 else zabs(w) * RV(Fraction(1, 10**9)) + RV(Fraction(1, 10**18))
+                alts.append(z3.And(t >= RV(s) - h - ms, t <= RV(s) + h + ms, value - w <= tol, w - value <= tol))
+            return [(f"{label}[{k}]", z3.And(all_inside, z3.Not(z3.Or(alts))))]
+
+        if self.what == "call":
+            if not isinstance(out, P.Phase) or out.shape != (n,):
+                return checks + [("returns-Phase-of-the-times-shape", z3.BoolVal(True))]
+            for k, (ri, rf) in enumerate(parts(S, out)):
+                checks += per_element("tempo-formula", k, z3.simplify(ri + rf), 0, tolp)
+        else:
+            for m, q in enumerate(out):
+                v = np.atleast_1d(np.asarray(q.to_value(u.cycle / u.s ** (m + 1)), dtype=object)).ravel()
+                if len(v) != n:
+                    checks.append((f"derivative-{m + 1}-has-the-times-shape", z3.BoolVal(True)))
+                    continue
+                tol = RV(Fraction(1, 10**9)) * (RV(700) if m == 0 else RV(Fraction(1, 10**6)))
+                for k in range(n):
+                    checks += per_element(f"derivative-{m + 1}", k, term_of_number(v[k]), m + 1, tol)
+        return checks
+
+    def signature(self, label, values, detail):
+        return f"polyco-vec:{self.what}:{label}"
+
+
 def units(tier):
     us = [Intervals(n) for n in ((1, 2, 3) if tier == "quick" else (1, 2, 3, 4))]
     for which in ("timing", "gap", "odd"):
@@ -424,6 +612,15 @@ def units(tier):
             if tier == "quick" and which == "timing" and what == "phasepol":
                 continue          # (many entries x degree-11 composition: ~80 s, thorough tier)
             us.append(Evaluate(which, what))
+    for which in (("gap", "odd") if tier == "quick" else ("gap", "odd", "timing")):
+        for what in ("call", "f0"):
+            us.append(EvaluateVec(which, what, 2))
+    # three times: the first and last can share an entry while the middle one lies in another
+    us.append(EvaluateVec("odd", "call", 3))
+    us.append(EvaluateVec("gap", "f0", 3))
+    if tier != "quick":
+        us.append(EvaluateVec("gap", "call", 3))
+        us.append(EvaluateVec("odd", "f0", 3))
     from . import C08_parse
     us += C08_parse.units(tier)
     return us
